@@ -253,6 +253,12 @@ class Program:
         """Role-based attribute names, then inlining of non-anchor private helpers (hwverif.normalize)."""
         from .normalize import apply_renames, flatten_program, role_renames, split_conditional_returns, unfold_missing_predicates
 
+        from .normalize import nest_returned_module_functions
+
+        nested_ = nest_returned_module_functions(self)
+        if nested_:
+            self.normalisation_log += nested_
+            self._reindex()
         from .normalize import distinguish_cancelled_errors
 
         dist = distinguish_cancelled_errors(self)
@@ -308,6 +314,12 @@ class Program:
         unfolded = unfold_missing_predicates(self)
         if unfolded:
             self.normalisation_log += unfolded
+            self._reindex()
+        from .normalize import sink_result_returns
+
+        sunk = sink_result_returns(self)
+        if sunk:
+            self.normalisation_log += sunk
             self._reindex()
         split = split_conditional_returns(self)
         if split:
